@@ -47,3 +47,6 @@ def witness_search(tier, seed):
             if type(simfile.loads(text)) is not SMSimfile:
                 return dict(input=f"{k}={v!r}", detail="not auto-detected as SM")
     return None
+
+from pyvc.xcheck import MsdTextProbe   # noqa: E402
+THOROUGH_BOUNDED = [MsdTextProbe()]
